@@ -19,7 +19,7 @@ def run(ctx):
         seen, keep = set(), []
         for s in scens:
             p = s['par']
-            k = (p['preview'], p['icap'], p['bypass'], min(p['units'], 1))
+            k = (p['preview'], p['icap'], p['bypass'], min(p['units'], 1), p['aframing'])
             if k not in seen:
                 seen.add(k)
                 keep.append(s)
@@ -58,7 +58,7 @@ def run(ctx):
             vv, va = 2 * i + 1, 2 * i + 2
             la = r0.choice([0, 30, 9000, 80000])
             virgin[n] = (vv, lv)
-            plan[n] = {'kind': p['icap'], 'va': va, 'la': la, 'abody': peers.body_bytes(va, la)}
+            plan[n] = {'kind': p['icap'], 'va': va, 'la': la, 'abody': peers.body_bytes(va, la), 'aframing': p['aframing']}
             svc = 's_%s_%d' % (p['preview'], 1 if p['bypass'] else 0)
             url = 'http://127.0.0.1:%d/c60/%s/%s' % (origin.port, svc, n)
             r = await peers.simple_get(rec, sq.port, url, vid=n, timeout=12.0)
@@ -113,6 +113,6 @@ def run(ctx):
     ctx.cov['delivered'] = {k: sum(1 for o in out if ('error' if o['squidError'] else ('virgin' if o['hv'] == o['vv'] else 'adapted')) == k) for k in ('virgin', 'adapted', 'error')}
     for o in out[:2]:
         ctx.sample({k: o[k] for k in o if k != 'n'})
-    ctx.cov['rule'] = ('classes = IcapScen.tla (body units x preview off/0/100/huge x ICAP behaviour 200/204/204-in-preview/100-continue/500/abort before reply, mid head, mid body/garbage x bypass); '
+    ctx.cov['rule'] = ('classes = IcapScen.tla (body units x preview off/0/100/huge x ICAP behaviour 200/204/204-in-preview/100-continue/500/abort before reply, mid head, mid body/garbage x bypass x adapted header with/without Content-Length); '
                        'RESPMOD through a scripted ICAP server; TLC evaluates Icap.tla on what the client received.')
     ctx.assumptions += ['RESPMOD only (REQMOD is not exercised)', 'icap_206_enable off: 206/use-original-body is a legitimate fourth outcome outside the statement']
